@@ -231,7 +231,7 @@ type replayFile struct {
 }
 
 func writeReplay(spec *Spec, u *Unit, v *Violation, params map[string]int) string {
-	dir := filepath.Join(verifDir, "replays", spec.Property)
+	dir := filepath.Join(outDir(), "replays", spec.Property)
 	os.MkdirAll(dir, 0o755)
 	name := fmt.Sprintf("%s-%s-%d.json", v.Harness, sanitize(v.ID), time.Now().UnixNano()%1000000)
 	path := filepath.Join(dir, name)
@@ -374,7 +374,7 @@ func writeEvidence(spec *Spec, o *runOpts, loadS float64, results []*HarnessResu
 	ev["params"] = tierParams(spec, o.tier)
 	ev["finished_at"] = time.Now().UTC().Format(time.RFC3339)
 	// keep a summary of the latest run of the other tier (this file is rewritten by every run)
-	evPath := filepath.Join(verifDir, "evidence", spec.Property+".json")
+	evPath := filepath.Join(outDir(), "evidence", spec.Property+".json")
 	others := map[string]interface{}{}
 	if ob, err := os.ReadFile(evPath); err == nil {
 		var old map[string]interface{}
@@ -396,9 +396,9 @@ func writeEvidence(spec *Spec, o *runOpts, loadS float64, results []*HarnessResu
 	}
 	delete(others, o.tier)
 	ev["other_tier_runs"] = others
-	os.MkdirAll(filepath.Join(verifDir, "evidence"), 0o755)
+	os.MkdirAll(filepath.Join(outDir(), "evidence"), 0o755)
 	b, _ := json.MarshalIndent(ev, "", " ")
-	os.WriteFile(filepath.Join(verifDir, "evidence", spec.Property+".json"), b, 0o644)
+	os.WriteFile(filepath.Join(outDir(), "evidence", spec.Property+".json"), b, 0o644)
 }
 
 func tierParams(spec *Spec, tier string) map[string]int {
@@ -406,6 +406,15 @@ func tierParams(spec *Spec, tier string) map[string]int {
 		return t.Params
 	}
 	return nil
+}
+
+// outDir: where evidence and replay files go (VERIF_OUT redirects them, e.g. for runs against a
+// scratch copy of the repository with a seeded change, so that /verif/evidence keeps describing /repo)
+func outDir() string {
+	if d := os.Getenv("VERIF_OUT"); d != "" {
+		return d
+	}
+	return verifDir
 }
 
 func round2(f float64) float64 { return float64(int(f*100+0.5)) / 100 }
